@@ -1158,7 +1158,23 @@ fn op_inverse<F: LibF>(bank: &mut Bank<F>, w: fn(usize) -> Wrote, d: usize, a: u
 // ---------------------------------------------------------------------------------------
 // generator
 
-fn limb_patterns(pr: &mut Prng, p: &BigUint) -> BigUint {
+pub fn limb_patterns(pr: &mut Prng, p: &BigUint) -> BigUint {
+    // whole-value stored patterns first: (p-1)/2, (p+1)/2, p-1, p-2, 2^255, 2^256-p, 1, 2^192 ...
+    if pr.chance(1, 5) {
+        let two256 = BigUint::one() << 256;
+        return match pr.below(10) {
+            0 => (p - 1u32) >> 1,
+            1 => (p + 1u32) >> 1,
+            2 => p - 1u32,
+            3 => p - 2u32,
+            4 => BigUint::one() << 255,
+            5 => &two256 - p,
+            6 => BigUint::one(),
+            7 => BigUint::one() << (64 * (1 + pr.below(3)) as u32),
+            8 => ((p - 1u32) >> 1) - pr.below(3),
+            _ => (&two256 - p) + pr.below(1 << 20),
+        };
+    }
     let pd = {
         let mut l = [0u64; 4];
         for (i, x) in p.to_u64_digits().iter().enumerate() {
@@ -1549,6 +1565,106 @@ pub fn generate(seed: u64) -> FldSpec {
                         }
                     }
                 }
+                6 => {
+                    // the same stored limbs in both fields, then the same operation in each (a
+                    // cache or table shared between Fr and Fq and keyed by the limbs alone)
+                    let l = limb_patterns(&mut pr, q) % r;
+                    ops.push(FOp::FromSlice { k: Fk::Fr, dst, bytes: hex(&aimed_bytes(&l, r)), via_try: false });
+                    ops.push(FOp::FromSlice { k: Fk::Fq, dst, bytes: hex(&aimed_bytes(&l, q)), via_try: false });
+                    let (k1, k2) = if pr.chance(1, 2) { (Fk::Fr, Fk::Fq) } else { (Fk::Fq, Fk::Fr) };
+                    match pr.below(3) {
+                        0 => {
+                            ops.push(FOp::Inverse { k: k1, dst: a, a: dst });
+                            ops.push(FOp::Inverse { k: k2, dst: a, a: dst });
+                        }
+                        1 => {
+                            ops.push(FOp::Bin { k: k1, o: BinOp::Mul, form: Form::VV, dst: a, a: dst, b: dst });
+                            ops.push(FOp::Bin { k: k2, o: BinOp::Mul, form: Form::VV, dst: a, a: dst, b: dst });
+                        }
+                        _ => {
+                            ops.push(FOp::Neg { k: k1, dst: a, a: dst, by_ref: false });
+                            ops.push(FOp::Neg { k: k2, dst: a, a: dst, by_ref: false });
+                        }
+                    }
+                }
+                7 => {
+                    // aimed at the OUTPUT: choose the stored limbs W the result should have (just
+                    // above R mod p = results that wrapped past 2^256, small sparse limbs = results
+                    // that needed the final subtraction, just below p, limb patterns), then solve
+                    // for operands: x = sqrt(w) for the squaring path, b = w/a, b = w - a, b = a - w
+                    let two256 = mont_r();
+                    let wl = match pr.below(6) {
+                        0 | 1 => ((&two256 - p) + limb_sparse(&mut pr, 3)) % p,
+                        2 => limb_sparse(&mut pr, 3) % p,
+                        3 => (p - 1u32 - limb_sparse(&mut pr, 2)) % p,
+                        _ => limb_patterns(&mut pr, p) % p,
+                    };
+                    let rinv = model::minv(&(&two256 % p), p).unwrap();
+                    let w = (&wl * &rinv) % p;
+                    let (ra, rb) = (a, (a + 1) % n);
+                    match pr.below(5) {
+                        0 | 1 => {
+                            // squaring path (pow 2 / pow 3) and the plain product
+                            if let Some(x) = model::msqrt(&w, p) {
+                                let x = if pr.chance(1, 2) { x } else { model::mneg(&x, p) };
+                                ops.push(FOp::FromSlice { k, dst: ra, bytes: hex(&be32(&x)), via_try: false });
+                                ops.push(FOp::FromSlice { k, dst: rb, bytes: hex(&be32(&BigUint::from(2u32))), via_try: false });
+                                ops.push(FOp::Pow { k, dst, a: ra, e: rb });
+                                ops.push(FOp::Bin { k, o: BinOp::Mul, form: Form::VV, dst: b, a: ra, b: ra });
+                                if k == Fk::Fq {
+                                    ops.push(FOp::Sqrt { dst: rb, a: dst });
+                                }
+                            }
+                        }
+                        2 => {
+                            let av = (from_be(&pr.bytes(32)) % (p - 1u32)) + 1u32;
+                            let bv = (&w * model::minv(&av, p).unwrap()) % p;
+                            ops.push(FOp::FromSlice { k, dst: ra, bytes: hex(&be32(&av)), via_try: false });
+                            ops.push(FOp::FromSlice { k, dst: rb, bytes: hex(&be32(&bv)), via_try: false });
+                            ops.push(FOp::Bin { k, o: BinOp::Mul, form: *pr.pick(&FORMS), dst, a: ra, b: rb });
+                        }
+                        3 => {
+                            let av = from_be(&pr.bytes(32)) % p;
+                            let bv = model::msub(&w, &av, p);
+                            ops.push(FOp::FromSlice { k, dst: ra, bytes: hex(&be32(&av)), via_try: false });
+                            ops.push(FOp::FromSlice { k, dst: rb, bytes: hex(&be32(&bv)), via_try: false });
+                            ops.push(FOp::Bin { k, o: BinOp::Add, form: *pr.pick(&FORMS), dst, a: ra, b: rb });
+                        }
+                        _ => {
+                            let av = from_be(&pr.bytes(32)) % p;
+                            let bv = model::msub(&av, &w, p);
+                            ops.push(FOp::FromSlice { k, dst: ra, bytes: hex(&be32(&av)), via_try: false });
+                            ops.push(FOp::FromSlice { k, dst: rb, bytes: hex(&be32(&bv)), via_try: false });
+                            ops.push(FOp::Bin { k, o: BinOp::Sub, form: *pr.pick(&FORMS), dst, a: ra, b: rb });
+                        }
+                    }
+                }
+                8 => {
+                    // a value with a boundary stored pattern run through the unary operations
+                    // (inverse, sqrt and its internal doubling/halving, neg, pow 2, Fq2 sqrt)
+                    let l = limb_patterns(&mut pr, p) % p;
+                    ops.push(FOp::FromSlice { k, dst, bytes: hex(&aimed_bytes(&l, p)), via_try: false });
+                    match pr.below(5) {
+                        0 | 1 => ops.push(FOp::Inverse { k, dst: a, a: dst }),
+                        2 => ops.push(FOp::Neg { k, dst: a, a: dst, by_ref: pr.chance(1, 2) }),
+                        3 => {
+                            if k == Fk::Fq {
+                                ops.push(FOp::Sqrt { dst: a, a: dst });
+                            } else {
+                                ops.push(FOp::Inverse { k, dst: a, a: dst });
+                            }
+                        }
+                        _ => {
+                            if k == Fk::Fq {
+                                ops.push(FOp::Q2New { dst: a, a: dst, b: dst });
+                                ops.push(FOp::Q2Sqrt { dst: b, a });
+                                ops.push(FOp::Q2Bin { o: BinOp::Mul, form: Form::VV, dst: b, a, b: a });
+                            } else {
+                                ops.push(FOp::Bin { k, o: BinOp::Add, form: Form::VV, dst: a, a: dst, b: dst });
+                            }
+                        }
+                    }
+                }
                 9 => {
                     // aimed at the dedicated squaring routine (reached through pow): a base whose
                     // Montgomery square has chosen quotient digits, raised to 2 (and to 3)
@@ -1565,10 +1681,21 @@ pub fn generate(seed: u64) -> FldSpec {
                     // pairwise == monitor then compares them ("equality is value equality")
                     let l = limb_patterns(&mut pr, p) % p;
                     let j = pr.below(4) as u32;
-                    let l2 = match pr.below(3) {
+                    let j2 = (j + 1 + pr.below(3) as u32) % 4;
+                    let l2 = match pr.below(5) {
                         0 => &l ^ (BigUint::one() << (64 * j + pr.below(64) as u32)),
                         1 => &l ^ (BigUint::from(u64::MAX) << (64 * j)),
-                        _ => &l ^ (BigUint::from(pr.next_u64() | 1) << (64 * j)),
+                        2 => &l ^ (BigUint::from(pr.next_u64() | 1) << (64 * j)),
+                        3 => {
+                            // the same bit flipped in two different limbs (differences that cancel
+                            // under xor-folding or sum to zero under wrapping addition)
+                            let bit = pr.below(64) as u32;
+                            &l ^ (BigUint::one() << (64 * j + bit)) ^ (BigUint::one() << (64 * j2 + bit))
+                        }
+                        _ => {
+                            let d = pr.next_u64() | 1;
+                            &l ^ (BigUint::from(d) << (64 * j)) ^ (BigUint::from(d) << (64 * j2))
+                        }
                     } % p;
                     let (ra, rb) = (dst, (dst + 1) % n);
                     ops.push(FOp::FromSlice { k, dst: ra, bytes: hex(&aimed_bytes(&l, p)), via_try: false });
